@@ -142,7 +142,22 @@ def gen_header(rng, i, which, n, style):
     if style == "plain":
         return rid
     if style == "casava":
-        return f"{rid} {which}:{rng.choice('YN')}:0:ACGT"
+        # mostly the regular Illumina shape; some headers that only look similar: ':Y:' inside an id without comment,
+        # a comment that is too short, shifted by a second blank or by a two-digit read number
+        if i % 5 == 3:
+            rid = f"r:Y:{i}"          # the same for both mates (ids must agree)
+        r = rng.random()
+        if r < 0.6:
+            return f"{rid} {which}:{rng.choice('YN')}:0:ACGT"
+        if r < 0.7:
+            return rid
+        if r < 0.78:
+            return f"{rid} {which}:Y"
+        if r < 0.86:
+            return f"{rid}  {which}:Y:0:ACGT"
+        if r < 0.93:
+            return f"{rid} 1{which}:Y:0:ACGT"
+        return f"{rid} x:Y:"
     if style == "comment":
         return f"{rid} some comment {which}"
     if style == "lengthtag":
